@@ -133,6 +133,26 @@ namespace RuleLocal {
         }
     }
 
+    /*!
+     * \brief Inverse of getStepParent() where the relation is not already covered by getKid(), returns -1 if there is no such point.
+     *
+     * The semi-local rule uses global quadratic functions on level 1, points 3 and 4 depend on points 2 and 1 (their step-parents)
+     * but are not among the kids used for refinement and for the evaluation tree.
+     * The relation is needed when the coefficients of all dependent points have to be found, see GridLocalPolynomial::getSubGraph().
+     */
+    template<erule effective_rule>
+    int getStepKid(int point) {
+        if (effective_rule == erule::semilocalp){
+            switch(point) {
+                case 1: return 4;
+                case 2: return 3;
+                default:
+                    return -1;
+            };
+        }
+        return -1;
+    }
+
     template<erule effective_rule>
     int getKid(int point, int kid_number) {
         switch(effective_rule) {
